@@ -128,3 +128,23 @@ package contractcourt
 //@   loop * havoc
 //@   site call NewBreachRetribution: assert arg(0) == c.cfg.chanState && arg(1) == broadcastStateNum && arg(3) == commitSpend.SpendingTx
 //@   site call NewAnchorResolution: assert retn(NewBreachRetribution, 1) == nil && arg(2) == retn(NewBreachRetribution, 0).KeyRing
+//@
+//@ spec func closeTrigger(t int) int = ite(t == channeldb.CooperativeClose, coopCloseTrigger,
+//@        ite(t == channeldb.BreachClose, breachCloseTrigger, ite(t == channeldb.LocalForceClose, localCloseTrigger,
+//@        ite(t == channeldb.RemoteForceClose, remoteCloseTrigger, chainTrigger))))
+//@
+//@ func (c *ChannelArbitrator) progressStateMachineAfterRestart
+//@   props C13
+//@   requires c.cfg.CloseType == channeldb.CooperativeClose || c.cfg.CloseType == channeldb.BreachClose ||
+//@            c.cfg.CloseType == channeldb.LocalForceClose || c.cfg.CloseType == channeldb.RemoteForceClose
+//@   let st0 = old(c.state)
+//@   site call advanceState as height: assert arg(1) == ite(old(c.cfg.IsPendingClose), old(c.cfg.ClosingHeight), wrap(bestHeight, 32)) &&
+//@        arg(3) == commitSet
+//@   site call advanceState as trigger-before-closed: assert
+//@        (old(c.cfg.IsPendingClose) && (st0 == StateDefault || st0 == StateBroadcastCommit || st0 == StateCommitmentBroadcasted)) ==>
+//@        arg(2) == closeTrigger(old(c.cfg.CloseType))
+//@   site call advanceState as trigger-contract-closed: assert
+//@        (old(c.cfg.IsPendingClose) && st0 == StateContractClosed) ==> arg(2) == closeTrigger(old(c.cfg.CloseType))
+//@   site call advanceState as trigger-otherwise: assert !old(c.cfg.IsPendingClose) ==> arg(2) == chainTrigger
+//@   site call relaunchResolvers: assert st0 == StateWaitingFullResolution && retn(advanceState, 0) == StateWaitingFullResolution &&
+//@        arg(1) == commitSet
